@@ -53,7 +53,7 @@ func genDenom(r *vh.RNG) string {
 	return string(b)
 }
 
-// genAmount: a positive integer; shapes: tiny, 18-decimals scale, huge (up to 2^255).
+// genAmount: a positive integer; shapes: tiny, 18-decimals scale, huge (up to 2^240; sdk Int holds 256 bits).
 func genAmount(r *vh.RNG) sdkmath.Int {
 	switch r.Intn(6) {
 	case 0:
@@ -61,7 +61,7 @@ func genAmount(r *vh.RNG) sdkmath.Int {
 	case 1:
 		return sdkmath.NewInt(int64(r.U64()>>1) | 1)
 	case 2:
-		return sdkmath.NewIntFromBigInt(r.BigBits(r.Range(64, 255))).AddRaw(1)
+		return sdkmath.NewIntFromBigInt(r.BigBits(r.Range(64, 240))).AddRaw(1)
 	case 3:
 		return sdkmath.NewIntWithDecimal(int64(r.Range(1, 999)), 18)
 	default:
@@ -280,6 +280,10 @@ type msgKind struct {
 	signer string // Go field that carries the signer (its perturbation is rejected in multi-message docs)
 }
 
+// ifaceRegistry is the application's interface registry (set by Run); clones unpack nested Any
+// values with it, as the application's tx decoder does.
+var ifaceRegistry codectypes.InterfaceRegistry
+
 func cloneMsg(m sdk.Msg) sdk.Msg {
 	bz, err := proto.Marshal(m)
 	if err != nil {
@@ -287,6 +291,9 @@ func cloneMsg(m sdk.Msg) sdk.Msg {
 	}
 	out := reflect.New(reflect.TypeOf(m).Elem()).Interface().(sdk.Msg)
 	if err := proto.Unmarshal(bz, out); err != nil {
+		panic(err)
+	}
+	if err := codectypes.UnpackInterfaces(out, ifaceRegistry); err != nil {
 		panic(err)
 	}
 	return out
@@ -886,10 +893,6 @@ func retype(m sdk.Msg) (sdk.Msg, bool) {
 		return &govv1beta1.MsgVote{ProposalId: v.ProposalId, Voter: v.Voter, Option: govv1beta1.VoteOption(v.Option)}, true
 	case *govv1beta1.MsgDeposit:
 		return &govv1.MsgDeposit{ProposalId: v.ProposalId, Depositor: v.Depositor, Amount: v.Amount}, true
-	case *authztypes.MsgRevoke:
-		if v.MsgTypeUrl != "" {
-			return nil, false
-		}
 	case *feegranttypes.MsgRevokeAllowance:
 		return &authztypes.MsgRevoke{Granter: v.Granter, Grantee: v.Grantee}, true
 	}
